@@ -105,7 +105,7 @@ func (t *Directive) Validate(root *Root) (errs []error) {
 			if a.Default != nil {
 				if v, err := co.CoerceIn(a.Default); err != nil {
 					errs = append(errs, fmt.Errorf("%w at %d:%d", err, a.line, a.col))
-				} else if v != a.Default {
+				} else {
 					// Might as well replace the coerced value since it is really
 					// what is needed.
 					a.Default = v
